@@ -606,16 +606,15 @@ LEVEL_TEXT = ("Proved in Lean 4 about the executable model of XdlEncoder/Xdl::wr
               "xdl_roundtrip + xdl_roundtrip_same (compact and pretty XDL, identifier keys incl. digit-first, class names), sink_concat / "
               "writer_refines (the 16000-byte flushing sink loses and duplicates nothing, every mode), read_chunks, file_roundtrip and "
               "xdl_file_roundtrip (write then read through a file of any size = decode(encode)), double_roundtrip / float_roundtrip (the "
-              "bit-for-bit clauses, conditional on H2d/H2f = 'atof of the 17/9-digit lexeme is the number', a statement about libc), fmtG_H1 "
-              "(H1 PROVED for the formatter the driver runs, so no theorem is vacuous for that instance) and fmtG_digits_rounded_partial (its "
-              "digits are the value rounded half-even to P digits, exact over Q). The model is tied to the code by the correspondence check "
+              "bit-for-bit clauses, conditional on H2d/H2f = 'atof of the 17/9-digit lexeme is the number', a statement about libc), fmtG_H1 and "
+              "fmtG_H1v (PROVED for the formatter the driver runs: Dtoa.fmtG prints an RFC number whose decimal value is the double's value "
+              "rounded half-even to P digits, all three %g layouts, exact over Q - so no theorem is vacuous for that instance and 'denotes the "
+              "same value' is a statement about values). The model is tied to the code by the correspondence check "
               "under ASan (encode bytes in 8 modes incl. non-string $type, decode(encode), write/read through files slid across the 16382/16000 "
               "boundaries, nesting 999/1000/1001) and python3 json parses every JSON-mode output.")
 LEVEL_NOTE = ("Partial / not proved: (1) H2d and H2f (17 resp. 9 digits identify a double/float through atof) are hypotheses - `def "
               "double_roundtrip_full` states H2d for the concrete Dtoa.fmtG/Strtod.atofBits; K and the python oracle exercise it on every "
-              "generated number (denormals, +-DBL_MAX, -0, powers of two +-1ulp, random bits). (2) `def fmtG_rounds_full` (H1v for Dtoa.fmtG: "
-              "the printed lexeme's VALUE is the correctly rounded value) - proved: shape (fmtG_H1) and rounding of the digits "
-              "(fmtG_digits_rounded_partial); missing: reading the three %g layouts back to n*10^(x-P+1). (3) Strtod.atofBits is proved exact "
+              "generated number (denormals, +-DBL_MAX, -0, powers of two +-1ulp, random bits). (2) Strtod.atofBits is proved exact "
               "on integer lexemes only (atof_int_exact), not correctly rounded in general. Same/SameX need distinct keys per object (what Dic "
               "guarantees); with duplicate keys the last value wins (C06 norm_object_lookup). XDL theorems need identifier keys and a string "
               "class name (non-string $type is covered by sink_concat/writer_refines and K only). "
